@@ -112,6 +112,13 @@ def main(argv):
             mod.run(chk)
         return chk.finish()
     except MachineryError as ex:
+        # a guard of the machinery (typically: a scenario family produced no comparable case) tripped AFTER mismatches with the implementation
+        # had been observed: those observations are genuine and are what to report - the guard is most likely their consequence
+        known = findings.load(a.pid)
+        if any(m["fingerprint"] not in known for m in chk.mismatches):
+            print("NOTE %s: the run was cut short by a machinery guard (%s); the violations observed before it are reported" % (a.pid, str(ex)[:300]))
+            chk.notes["cut_short_by_machinery_guard"] = str(ex)[:300]
+            return chk.finish()
         print("MACHINERY-FAILURE %s: %s" % (a.pid, ex))
         return 2
     except Exception:
